@@ -8,19 +8,27 @@ package rig
 // payload were generated from.
 
 import (
+	"bufio"
 	"context"
 	"encoding/json"
 	"fmt"
+	"io"
+	"net"
+	"net/http"
 	"os"
 	"path/filepath"
 	"strings"
+	"sync"
 	"syscall"
 	"time"
 
 	"github.com/ErdemOzgen/blackdagger/internal/agent"
 	"github.com/ErdemOzgen/blackdagger/internal/client"
 	"github.com/ErdemOzgen/blackdagger/internal/dag"
+	"github.com/ErdemOzgen/blackdagger/internal/dag/scheduler"
 	dsclient "github.com/ErdemOzgen/blackdagger/internal/persistence/client"
+	"github.com/ErdemOzgen/blackdagger/internal/persistence/model"
+	"github.com/ErdemOzgen/blackdagger/internal/sock"
 )
 
 type ParamSpec struct {
@@ -533,5 +541,172 @@ func RunParamsCLI(self, bin string, sc ParamScenario, base string) Ev {
 		probes[strings.ReplaceAll(tag, ".", "_")] = Ev{"missing": false, "bad": bad, "detail": detail}
 	}
 	rec["probes"] = probes
+	return rec
+}
+
+// RunRestartDyingAgent (C11, command layer): `blackdagger restart` of a DAG whose run ends while restart is talking to
+// it. The "agent" is a raw listener at the DAG's socket address that speaks with the bytes of the REAL status server
+// (captured from internal/sock answering the same requests): the first status query gets the complete answer
+// ("running"), the stop request is acknowledged, and the next status query gets an answer that is cut off in the middle -
+// the process has exited while writing it - after which the socket is gone. Restart must go on and start the new run with
+// the parameters of the previous one.
+func RunRestartDyingAgent(self, bin string, id int, cut float64, base string) Ev {
+	dir := filepath.Join(base, fmt.Sprintf("dying%d", id))
+	dagsDir := filepath.Join(dir, "dags")
+	os.MkdirAll(dagsDir, 0o755)
+	defer os.RemoveAll(dir)
+	rec := Ev{"kind": "dying", "id": id, "cut": cut, "infra": "", "restartOk": false, "runsRecorded": 0, "run2": "?", "probeOk": false, "sawCut": false}
+	probeCmd := fmt.Sprintf("%s probe -dir %s -tag first -names X", self, dir)
+	y := "logDir: " + filepath.Join(dir, "logs") + "\nparams: \"p0 X=default\"\nsteps:\n  - name: first\n    command: " + probeCmd + "\n"
+	file := filepath.Join(dagsDir, fmt.Sprintf("dying%d.yaml", id))
+	os.WriteFile(file, []byte(y), 0o644)
+	defer removeSockLock(file)
+	for k, v := range map[string]string{"HOME": dir, "BLACKDAGGER_HOME": dir, "BLACKDAGGER_DAGS_DIR": dagsDir, "BLACKDAGGER_DATA_DIR": filepath.Join(dir, "data"),
+		"BLACKDAGGER_LOG_DIR": filepath.Join(dir, "logs"), "BLACKDAGGER_SUSPEND_FLAGS_DIR": filepath.Join(dir, "susp"), "BLACKDAGGER_WORK_DIR": dir} {
+		os.Setenv(k, v)
+	}
+	for _, k := range []string{"1", "2", "X"} {
+		os.Unsetenv(k)
+	}
+	d, err := dag.LoadMetadata(file)
+	if err != nil {
+		rec["infra"] = "load: " + err.Error()
+		return rec
+	}
+	ds := dsclient.NewDataStores(dagsDir, filepath.Join(dir, "data"), filepath.Join(dir, "susp"), dsclient.DataStoreOptions{})
+	cli := client.New(ds, bin, dir, quietLogger)
+	// the run that is "in progress": recorded as running, started with parameters of its own; a large captured output makes
+	// its status long, as in the runs where the defect was first seen
+	prev := `given "two words" X=9`
+	st := model.NewStatus(d, nil, scheduler.StatusRunning, 1234, nil, nil)
+	st.RequestID = "dying-req-1"
+	st.Params = prev
+	st.Log = strings.Repeat("x", 70000)
+	hs := ds.HistoryStore()
+	if err := hs.Open(file, time.Now().Add(-time.Minute), st.RequestID); err != nil {
+		rec["infra"] = "history: " + err.Error()
+		return rec
+	}
+	hs.Write(st)
+	// ---- the bytes of the real server for the two requests
+	capture := func(method, path string, h func(w http.ResponseWriter, r *http.Request)) ([]byte, error) {
+		addr := filepath.Join(dir, "cap.sock")
+		os.Remove(addr)
+		srv, err := sock.NewServer(addr, h, quietLogger)
+		if err != nil {
+			return nil, err
+		}
+		lerr := make(chan error, 1)
+		go srv.Serve(lerr)
+		if err := <-lerr; err != nil {
+			return nil, err
+		}
+		defer srv.Shutdown()
+		c, err := net.DialTimeout("unix", addr, 3*time.Second)
+		if err != nil {
+			return nil, err
+		}
+		defer c.Close()
+		fmt.Fprintf(c, "%s %s HTTP/1.1\r\nHost: x\r\n\r\n", method, path)
+		c.SetReadDeadline(time.Now().Add(5 * time.Second))
+		return io.ReadAll(c)
+	}
+	body, _ := st.ToJSON()
+	rStatus, err := capture("GET", "/status", func(w http.ResponseWriter, r *http.Request) {
+		w.Header().Set("content-type", "application/json")
+		w.WriteHeader(http.StatusOK)
+		w.Write(body)
+	})
+	if err != nil || len(rStatus) < len(body) {
+		rec["infra"] = fmt.Sprintf("capture status: %v (%d bytes)", err, len(rStatus))
+		return rec
+	}
+	rOK, err := capture("POST", "/stop", func(w http.ResponseWriter, r *http.Request) {
+		w.WriteHeader(http.StatusOK)
+		w.Write([]byte("OK"))
+	})
+	if err != nil {
+		rec["infra"] = "capture stop: " + err.Error()
+		return rec
+	}
+	// ---- the dying agent
+	os.Remove(d.SockAddr())
+	ln, err := net.Listen("unix", d.SockAddr())
+	if err != nil {
+		rec["infra"] = "listen: " + err.Error()
+		return rec
+	}
+	var mu sync.Mutex
+	stopped, sawCut := false, false
+	gone := make(chan struct{})
+	go func() {
+		defer close(gone)
+		for {
+			c, err := ln.Accept()
+			if err != nil {
+				return
+			}
+			br := bufio.NewReader(c)
+			line, _ := br.ReadString('\n')
+			mu.Lock()
+			switch {
+			case strings.HasPrefix(line, "POST"):
+				stopped = true
+				c.Write(rOK)
+				c.Close()
+				mu.Unlock()
+			case !stopped:
+				c.Write(rStatus)
+				c.Close()
+				mu.Unlock()
+			default:
+				// the run has ended: the answer is cut off, the process is gone, its run is recorded as canceled
+				c.Write(rStatus[:int(float64(len(rStatus))*cut)])
+				c.Close()
+				sawCut = true
+				mu.Unlock()
+				st.Status = scheduler.StatusCancel
+				st.StatusText = scheduler.StatusCancel.String()
+				hs.Write(st)
+				hs.Close()
+				ln.Close()
+				os.Remove(d.SockAddr())
+				return
+			}
+		}
+	}()
+	os.WriteFile(filepath.Join(dir, "run"), []byte("2"), 0o644)
+	done := make(chan error, 1)
+	go func() { done <- cli.Restart(d, client.RestartOptions{Quiet: true}) }()
+	select {
+	case err := <-done:
+		rec["restartOk"] = err == nil
+	case <-time.After(40 * time.Second):
+		rec["infra"] = "restart does not end"
+	}
+	ln.Close()
+	select {
+	case <-gone:
+	case <-time.After(2 * time.Second):
+	}
+	mu.Lock()
+	rec["sawCut"] = sawCut
+	mu.Unlock()
+	if !sawCut {
+		// restart never asked again after the stop: nothing to judge (and the history writer is still open)
+		hs.Close()
+	}
+	hist := ds.HistoryStore().ReadStatusRecent(file, 10)
+	rec["runsRecorded"] = len(hist)
+	if len(hist) >= 1 {
+		rec["run2"] = hist[0].Status.Status.String()
+		rec["run2Params"] = hist[0].Status.Params
+	}
+	if b, err := os.ReadFile(filepath.Join(dir, "first.2.json")); err == nil {
+		var seen map[string]any
+		json.Unmarshal(b, &seen)
+		rec["probeOk"] = seen["1"] == "given" && seen["2"] == "two words" && seen["X"] == "9"
+		rec["probe"] = Ev{"1": seen["1"], "2": seen["2"], "X": seen["X"]}
+	}
 	return rec
 }
